@@ -212,3 +212,6 @@ mut("c19e-index-advance", "C19", "yffi/src/lib.rs", "            let len = vec.l
 mut("c19e-benign-len-after", "C19", "yffi/src/lib.rs", "            let len = vec.len() as u32;\n            array.insert_range(txn, j, vec);\n            j += len;", "            let n = vec.len();\n            array.insert_range(txn, j, vec);\n            j += n as u32;", "", kind="benign")
 mut("c20g-delete-clears-linked", "C20", T, "                        self.add_changed_type(link, item.parent_sub.clone());\n                    }\n                }\n            }\n            result = true;",
     "                        self.add_changed_type(link, item.parent_sub.clone());\n                    }\n                }\n                item.info.clear_linked();\n            }\n            result = true;", "C20.g")
+mut("c17d-index-to-ptr-counts-tombstones", "C17", "yrs/src/branch.rs", "            let content_len = item.content_len(encoding);\n            if !item.is_deleted() && item.is_countable() {\n                if index == content_len {",
+    "            let content_len = item.content_len(encoding);\n            if item.is_countable() {\n                if index == content_len {", "C17.d", also=["C03"])
+mut("c17d-block-iter-forward-counts-tombstones", "C17", "yrs/src/block_iter.rs", None, None, "C17.d")
